@@ -13,6 +13,7 @@ import Chewing.Proofs.LayoutComplete_dc26
 import Chewing.Proofs.LayoutComplete_hanyu
 import Chewing.Proofs.LayoutComplete_thl
 import Chewing.Proofs.LayoutComplete_mps2
+import Chewing.Proofs.LayoutUnreachAll
 /-!
 # C14 — Every phonetic layout is sound, and complete for the dictionary's readings
 
@@ -270,6 +271,67 @@ theorem complete_pinyin_partial : ∀ v, v < 3 → ∀ r ∈ readingCodes, r ∉
   rcases this with h | h
   · exact absurd h hg
   · exact pinyinEnters_of_any h
+
+/-! ### the refuted side of known finding F21: the excluded readings really cannot be entered
+
+For Hsu / ET26 / DaChen26: an invariant of the editor's way of driving the layout (no tone; the lone rimes
+ㄝ / ㄟ / ㄥ never stand alone) holds along every key list, from no such state does a key commit a listed reading
+(kernel evaluation over all 22×4×14 toneless syllables × the keys the layout reacts to), and no
+`alt_syllables` list offers one.  For Pinyin: no exact-match row and no (initial row, final row, tone)
+combination of the tables builds a listed reading. -/
+
+theorem gap_is_reading {r : Nat}
+    (h : r ∈ hsuGaps ++ et26Gaps ++ dc26Gaps ++ pinyinGaps 0 ++ pinyinGaps 1 ++ pinyinGaps 2) : r ∈ readingCodes := by
+  have := List.all_eq_true.mp gaps_are_readings r h
+  simpa using this
+
+theorem hsu_gap_unenterable {r : Nat} (hr : r ∈ hsuGaps) : r ∈ readingCodes ∧ ¬ Enters hsuL r :=
+  ⟨gap_is_reading (by simp [hr]), fun ⟨keys, hk⟩ => by rw [never_enters hsu_unreach hr keys] at hk; cases hk⟩
+
+theorem et26_gap_unenterable {r : Nat} (hr : r ∈ et26Gaps) : r ∈ readingCodes ∧ ¬ Enters et26L r :=
+  ⟨gap_is_reading (by simp [hr]), fun ⟨keys, hk⟩ => by rw [never_enters et26_unreach hr keys] at hk; cases hk⟩
+
+theorem dc26_gap_unenterable {r : Nat} (hr : r ∈ dc26Gaps) : r ∈ readingCodes ∧ ¬ Enters dc26L r :=
+  ⟨gap_is_reading (by simp [hr]), fun ⟨keys, hk⟩ => by rw [never_enters dc26_unreach hr keys] at hk; cases hk⟩
+
+theorem pinyin_gap_unenterable {v : Nat} (hv : v < 3) {r : Nat} (hr : r ∈ pinyinGaps v) :
+    r ∈ readingCodes ∧ ¬ PinyinEnters v r := by
+  refine ⟨gap_is_reading ?_, fun ⟨keys, hk⟩ => by rw [pinyin_never_enters (pinyin_unreach v hv) hr keys] at hk; cases hk⟩
+  match v, hv with
+  | 0, _ => simp [hr]
+  | 1, _ => simp [hr]
+  | 2, _ => simp [hr]
+
+/-- so the excluded sets are exact: a reading can be entered iff it is not listed -/
+theorem complete_hsu_exact : ∀ r ∈ readingCodes, (Enters hsuL r ↔ r ∉ hsuGaps) := fun r hr =>
+  ⟨fun he hg => (hsu_gap_unenterable hg).2 he, complete_hsu_partial r hr⟩
+
+theorem complete_et26_exact : ∀ r ∈ readingCodes, (Enters et26L r ↔ r ∉ et26Gaps) := fun r hr =>
+  ⟨fun he hg => (et26_gap_unenterable hg).2 he, complete_et26_partial r hr⟩
+
+theorem complete_dc26_exact : ∀ r ∈ readingCodes, (Enters dc26L r ↔ r ∉ dc26Gaps) := fun r hr =>
+  ⟨fun he hg => (dc26_gap_unenterable hg).2 he, complete_dc26_partial r hr⟩
+
+theorem complete_pinyin_exact : ∀ v, v < 3 → ∀ r ∈ readingCodes, (PinyinEnters v r ↔ r ∉ pinyinGaps v) :=
+  fun v hv r hr => ⟨fun he hg => (pinyin_gap_unenterable hv hg).2 he, complete_pinyin_partial v hv r hr⟩
+
+theorem complete_hsu_refuted : ¬ Complete hsuL := fun h =>
+  (hsu_gap_unenterable (r := 36) (by decide)).2 (h 36 (hsu_gap_unenterable (r := 36) (by decide)).1)
+
+theorem complete_et26_refuted : ¬ Complete et26L := fun h =>
+  (et26_gap_unenterable (r := 36) (by decide)).2 (h 36 (et26_gap_unenterable (r := 36) (by decide)).1)
+
+theorem complete_dc26_refuted : ¬ Complete dc26L := fun h =>
+  (dc26_gap_unenterable (r := 96) (by decide)).2 (h 96 (dc26_gap_unenterable (r := 96) (by decide)).1)
+
+theorem complete_pinyin_refuted : ∀ v, v < 3 → ¬ PinyinComplete v := fun v hv h =>
+  have hg : 170 ∈ pinyinGaps v := by unfold pinyinGaps; split <;> simp
+  (pinyin_gap_unenterable hv hg).2 (h 170 (pinyin_gap_unenterable hv hg).1)
+
+/-- the full-strength completeness statement is false for the current code (F21) -/
+theorem C14_complete_full_refuted : ¬ C14_complete_full := fun h =>
+  complete_hsu_refuted (h.1 hsuL (by simp [finiteLayouts]))
+
 
 /-- the key events of the witnesses are what `Qwerty.map(code)` returns -/
 theorem qwertyKey_spec {code : Nat} (h : code < 63) : genericMap qwertyKb code 0 = some (qwertyKey code) := by
